@@ -119,3 +119,19 @@ Definition stop_agrees (c : stop_case) : bool :=
   out_eqb (snd (run_op s (ORetStop (st_slot c)))) (st_obs c).
 Definition stop_ok (c : stop_case) : bool :=
   match st_obs c with URet _ w => word_eqb w (Real (st_expect c)) | _ => false end.
+
+(* --estimate-return case: like shadow_case, run with mcount_estimate_return set *)
+Fixpoint run_trace_est (n : nat) (s : st) (ops : list op) : list (out * nat * list word) :=
+  match ops with
+  | [] => []
+  | o :: t => let '(s1, u) := run_op_est s o in (u, List.length (rs s1), snapshot n s1) :: run_trace_est n s1 t
+  end.
+Definition est_agrees (c : shadow_case) : bool :=
+  list_eqb op_eqb (sc_ops c) (full 1 (sc_tree c))
+  && list_eqb obs_eqb (run_trace_est (sc_nslots c) st0 (sc_ops c)) (sc_obs c).
+(* the property: returns as in the native run, errno kept, and no slot ever holds anything but what the
+   program itself stored there *)
+Definition est_ok (c : shadow_case) : bool :=
+  ok_returns (sc_tree c) (map (fun o => fst (fst o)) (sc_obs c))
+  && forallb (fun b => b) (sc_errno c)
+  && forallb (fun o => forallb (fun w => negb (is_tramp w)) (tl (snd o))) (sc_obs c).
